@@ -94,6 +94,15 @@ def pOptEngine : P (Option BeeEngine)
   | "some" :: r => (pEngine r).map (fun (e, r) => (some e, r))
   | _ => none
 
+/-- `engine nlevels level* lock kibkey kibiv` -/
+def pBeeHdr : P BeeHdr := fun ts => do
+  let (e, ts) ← pEngine ts
+  let (ls, ts) ← pList pNat ts
+  let (lock, ts) ← pNat ts
+  let (kk, ts) ← pHex ts
+  let (ki, ts) ← pHex ts
+  pure (⟨e, ls, lock, kk, ki⟩, ts)
+
 def c : CryptoOps := execOps
 
 def hexRes : PyRes (List UInt8) → String := resLine (fun b => if b.isEmpty then "-" else toHex b)
@@ -223,6 +232,44 @@ def run (ts : List String) : Option String :=
     let (base, ts) ← pNat ts
     let (ct, ts) ← pHex ts
     let (es, _) ← pList pEngine ts
+    pure (hexOut (beeHwReadAll c es base ct))
+  | "kb_ctor" :: ts => do
+    let (kb, _) ← pKeyBlob ts
+    pure (if kb.ctorOk then "ok" else "E:spsdk")
+  | "sb21_enc" :: ts => do
+    let (s, ts) ← pNat ts
+    let (e, ts) ← pNat ts
+    let (k, ts) ← pHex ts
+    let (ctr, ts) ← pHex ts
+    let (swap, ts) ← pBool ts
+    let (addr, ts) ← pNat ts
+    let (d, _) ← pHex ts
+    pure (hexRes (Sb21.encrypt c s e k ctr swap addr d))
+  | "sb21_kw" :: ts => do
+    let (s, ts) ← pNat ts
+    let (e, ts) ← pNat ts
+    let (k, ts) ← pHex ts
+    let (ctr, ts) ← pHex ts
+    let (kek, ts) ← pHex ts
+    let (rnd, _) ← pHex ts
+    pure (hexRes (Sb21.keywrap c s e k ctr kek rnd))
+  | "bee_hdr" :: ts => do
+    let (h, _) ← pBeeHdr ts
+    pure (hexRes (h.export c))
+  | "bee_unhdr" :: ts => do
+    let (k, ts) ← pHex ts
+    let (hdr, _) ← pHex ts
+    pure (match beeHeaderUnwrap c k hdr with
+      | none => "ok:none"
+      | some e => s!"ok:{toHex e.key}:{toHex e.counter}:" ++ ",".intercalate (e.facs.map (fun f => s!"{f.start}+{f.length}")))
+  | "bee_hwhdr" :: ts => do
+    let (base, ts) ← pNat ts
+    let (ct, ts) ← pHex ts
+    let (hs, _) ← pList (fun ts => do
+      let (k, ts) ← pHex ts
+      let (h, ts) ← pHex ts
+      pure ((k, h), ts)) ts
+    let es := hs.filterMap (fun (k, h) => beeHeaderUnwrap c k h)
     pure (hexOut (beeHwReadAll c es base ct))
   | _ => none
 
